@@ -439,8 +439,8 @@ func flipBit(b []byte, i int) []byte {
 
 // pick returns the bit positions to flip: all of them when full (and the string is small), otherwise the
 // prefix, the first and last bytes and a seeded sample.
-func pickBits(nbits, plen int, full bool, r *rand.Rand) []int {
-	if full && nbits <= 8*160 {
+func pickBits(nbits, plen int, full, allBits bool, r *rand.Rand) []int {
+	if allBits && nbits <= 8*160 {
 		out := make([]int, nbits)
 		for i := range out {
 			out[i] = i
@@ -475,7 +475,7 @@ func pickBits(nbits, plen int, full bool, r *rand.Rand) []int {
 }
 
 // mutations of a VALID (sig, msg) pair under configuration c. `full` widens the enumeration.
-func mutations(c cfg, pub []byte, sig, msg []byte, r *rand.Rand, full bool) []mut {
+func mutations(c cfg, pub []byte, sig, msg []byte, r *rand.Rand, full, allBits bool) []mut {
 	var ms []mut
 	add := func(kind string, s, m []byte) { ms = append(ms, mut{kind, s, m}) }
 	pre := c.prefix()
@@ -494,7 +494,7 @@ func mutations(c cfg, pub []byte, sig, msg []byte, r *rand.Rand, full bool) []mu
 	add("msg-ext00-00", sig, cat(msg, []byte{0, 0}))
 	add("msg-extR", sig, cat(msg, vt.Bytes(r, 1+r.Intn(3))))
 	// ---- signature bit flips
-	for _, i := range pickBits(8*len(sig), plen, full, r) {
+	for _, i := range pickBits(8*len(sig), plen, full, allBits, r) {
 		add(fmt.Sprintf("sig-flip@%d", i), flipBit(sig, i), msg)
 	}
 	// ---- truncations / extensions
@@ -832,6 +832,7 @@ type request struct {
 	Sk      string `json:"sk"`
 	Salt    string `json:"salt"`
 	Msg     string `json:"msg"`
+	Shapes  int    `json:"shapes"` // ECDSA/DER: also return the DERShapes re-encodings with at most this many deviations (9 = all)
 }
 
 // refCase: a reference-made signature and how it is to be used.
@@ -876,12 +877,14 @@ func (p *plan) req(c cfg, km *keyMat, kind string, msg, salt []byte, alter func(
 	return q.Rid
 }
 
+// messages returns n short messages (every mutation class is applied to their signatures) followed by one
+// long message (1-4 kB; its signatures get the sampled mutation set only, to keep traces small).
 func messages(r *rand.Rand, n int, full bool) [][]byte {
-	lens := []int{0, 1, 20, 64, 100 + r.Intn(200), 1000 + r.Intn(3000)}
+	lens := []int{0, 1, 20, 64, 100 + r.Intn(200)}
 	var out [][]byte
 	for i := 0; i < n; i++ {
 		l := lens[(i+r.Intn(len(lens)))%len(lens)]
-		if i == 0 {
+		if i == 0 && n > 1 {
 			l = lens[r.Intn(2)] // always a very short one
 		}
 		m := vt.Bytes(r, l)
@@ -890,8 +893,10 @@ func messages(r *rand.Rand, n int, full bool) [][]byte {
 		}
 		out = append(out, m)
 	}
-	return out
+	return append(out, vt.Bytes(r, 1000+r.Intn(3000)))
 }
+
+func isLong(m []byte) bool { return len(m) >= 1000 }
 
 func keysOfKind(keys []keyMat, kind, curve string, bits int) []int {
 	var out []int
@@ -906,21 +911,36 @@ func keysOfKind(keys []keyMat, kind, curve string, bits int) []int {
 func buildPlan(keys []keyMat, full bool) *plan {
 	r := vt.Rng(3)
 	p := &plan{}
-	nmsg := 2
+	nmsg := 1
 	if full {
-		nmsg = 4
+		nmsg = 3
 	}
+	shapesAllDone := map[string]bool{}
+	only := os.Getenv("VERIF_C03_ONLY") // debugging / mutation trials: restrict to one algorithm family (not evidence)
 	addUnit := func(c cfg, ki, other int) {
+		if only != "" && !strings.HasPrefix(c.Alg, only) {
+			return
+		}
 		km := &keys[ki]
 		u := unit{c: c, key: ki, other: other, seed: r.Int63()}
 		u.msgs = messages(r, nmsg, full)
 		// reference-made signatures: valid ones (mutated like Tink's own) ...
-		for _, m := range messages(r, nmsg, full) {
+		for mi, m := range messages(r, nmsg, full) {
 			var salt []byte
 			if c.Alg == "RSA_PSS" {
 				salt = vt.Bytes(r, c.SaltLen)
 			}
-			u.refs = append(u.refs, refCase{p.req(c, km, "std", m, salt, nil), "ref", m, true})
+			var alter func(*request)
+			if c.Alg == "ECDSA" && c.Enc == "DER" && mi == 0 {
+				// spec -> code: TLC also emits the re-encodings of a reference signature from the shape grammar
+				k := 2
+				if full && !shapesAllDone[c.Curve+c.Hash] {
+					shapesAllDone[c.Curve+c.Hash] = true
+					k = 9
+				}
+				alter = func(q *request) { q.Shapes = k }
+			}
+			u.refs = append(u.refs, refCase{p.req(c, km, "std", m, salt, alter), "ref", m, true})
 		}
 		m := vt.Bytes(r, 1+r.Intn(40))
 		// ... and ones that deviate from the key's parameters in exactly one respect
@@ -1020,9 +1040,12 @@ func buildPlan(keys []keyMat, full bool) *plan {
 		ks := keysOfKind(keys, "EC", ch[0], 0)
 		for _, enc := range []string{"DER", "IEEE_P1363"} {
 			for vi, v := range variants {
+				if !full && ch[0] == "P384" && (vi+len(ch[1])+int(vt.Seed()))%2 == 0 {
+					continue // quick: the two P-384 hashes share the variants between them (rotating with the seed)
+				}
 				reps := 1
 				if full {
-					reps = len(ks)
+					reps = 2
 				}
 				for j := 0; j < reps; j++ {
 					i := (vi + j + ui) % len(ks)
@@ -1067,8 +1090,11 @@ func buildPlan(keys []keyMat, full bool) *plan {
 				if sl == 32 && hashLen(h) == 32 {
 					continue
 				}
+				if !full && sl == 0 && (hashLen(h)/16+int(vt.Seed()))%3 != 0 {
+					continue // quick: salt length 0 (see KNOWN_FINDINGS) with one hash per run, rotating with the seed
+				}
 				vs := []string{variants[(si+j)%4]}
-				if full && (sl == hashLen(h) || sl == 0) {
+				if full && sl == hashLen(h) {
 					vs = variants
 				}
 				for _, v := range vs {
@@ -1185,7 +1211,18 @@ func genKeys(full bool) []keyMat {
 
 // ------------------------------------------------------------------------------------------ run
 
-func runAll(keys []keyMat, answers map[int]string, w *vt.Writer, full bool) {
+type shapeSig struct {
+	K string `json:"k"`
+	S string `json:"s"`
+}
+
+type answer struct {
+	Rid int        `json:"rid"`
+	Sig string     `json:"sig"`
+	Re  []shapeSig `json:"re"`
+}
+
+func runAll(keys []keyMat, answers map[int]answer, w *vt.Writer, full bool) {
 	p := buildPlan(keys, full)
 	rec := &recorder{w}
 	// configurations the library is expected to refuse: recorded as coverage, never judged
@@ -1209,7 +1246,7 @@ func runAll(keys []keyMat, answers map[int]string, w *vt.Writer, full bool) {
 		}
 		_, err := newVerifier(rf.c, pub)
 		e := rf.c.ev("construct")
-		e["kind"], e["err"] = rf.what, err != nil
+		e["kind"], e["err"] = "refused: "+rf.what, err != nil
 		w.Emit(e)
 	}
 
@@ -1221,7 +1258,7 @@ func runAll(keys []keyMat, answers map[int]string, w *vt.Writer, full bool) {
 		v, err2 := newVerifier(c, pub)
 		if err1 != nil || err2 != nil {
 			e := c.ev("construct")
-			e["kind"], e["err"] = fmt.Sprintf("signer: %v; verifier: %v", err1, err2), true
+			e["kind"], e["err"] = fmt.Sprintf("unit: signer: %v; verifier: %v", err1, err2), true
 			w.Emit(e)
 			continue
 		}
@@ -1231,8 +1268,18 @@ func runAll(keys []keyMat, answers map[int]string, w *vt.Writer, full bool) {
 			pubOther = vt.Unhex(keys[u.other].Pub)
 			vOther, _ = newVerifier(c, pubOther)
 		}
+		flipped := map[string]bool{}
 		apply := func(origin string, sig, msg []byte) {
-			for _, m := range mutations(c, pub, sig, msg, r, full) {
+			done := map[string]bool{}
+			// thorough: EVERY bit of one Tink-made and one reference-made signature per unit; a sample otherwise
+			allBits := full && !isLong(msg) && !flipped[origin]
+			flipped[origin] = flipped[origin] || allBits
+			for _, m := range mutations(c, pub, sig, msg, r, full && !isLong(msg), allBits) {
+				k := string(m.sig) + "|" + string(m.msg)
+				if done[k] { // e.g. der-canonical = exact: one call is enough
+					continue
+				}
+				done[k] = true
 				rec.verify(c, pub, v, origin, m.kind, m.sig, m.msg)
 			}
 			if vOther != nil {
@@ -1258,12 +1305,121 @@ func runAll(keys []keyMat, answers map[int]string, w *vt.Writer, full bool) {
 			if !ok {
 				vt.Fatal("no reference answer for request %d", rc.rid)
 			}
-			sig := vt.Unhex(a)
+			sig := vt.Unhex(a.Sig)
+			for _, sh := range a.Re { // TLC-generated re-encodings of a reference signature over the same message
+				rec.verify(c, pub, v, "ref", "shape:"+sh.K, vt.Unhex(sh.S), rc.msg)
+			}
 			if rc.mutate {
 				apply("ref", sig, rc.msg)
 			} else {
 				rec.verify(c, pub, v, "ref", rc.kind, sig, rc.msg)
 			}
+		}
+	}
+}
+
+// ------------------------------------------------------------------------------------------ Wycheproof as an input source
+
+// runWycheproof feeds the (public key, message, signature) triples of the Wycheproof files to Tink's verifiers
+// (NO_PREFIX keys through the keyset factory; ECDSA and Ed25519 also through signature/subtle). The files'
+// expected results are NOT used: Tink's verdicts are recorded and judged by the TLA+ reference like every other
+// event (bin/selfspec separately checks that the reference agrees with the files). What this adds to the
+// mutation classes above: special public keys and hand-crafted edge-case signatures.
+func runWycheproof(dir string, w *vt.Writer, full bool) {
+	rec := &recorder{w}
+	sha := map[string]string{"SHA-256": "SHA256", "SHA-384": "SHA384", "SHA-512": "SHA512"}
+	curve := map[string]string{"secp256r1": "P256", "secp384r1": "P384", "secp521r1": "P521"}
+	type group struct {
+		PublicKey struct {
+			Curve          string `json:"curve"`
+			Uncompressed   string `json:"uncompressed"`
+			Pk             string `json:"pk"`
+			Modulus        string `json:"modulus"`
+			PublicExponent string `json:"publicExponent"`
+		} `json:"publicKey"`
+		Sha    string `json:"sha"`
+		Mgf    string `json:"mgf"`
+		MgfSha string `json:"mgfSha"`
+		SLen   int    `json:"sLen"`
+		Tests  []struct {
+			TcID int    `json:"tcId"`
+			Msg  string `json:"msg"`
+			Sig  string `json:"sig"`
+		} `json:"tests"`
+	}
+	load := func(name string) []group {
+		b, err := os.ReadFile(dir + "/" + name)
+		if err != nil {
+			vt.Fatal("wycheproof: %v", err)
+		}
+		var f struct {
+			TestGroups []group `json:"testGroups"`
+		}
+		if err := json.Unmarshal(b, &f); err != nil {
+			vt.Fatal("wycheproof %s: %v", name, err)
+		}
+		return f.TestGroups
+	}
+	feed := func(name string, c cfg, pub []byte, g group) {
+		routes := []string{"factory"}
+		if c.Alg == "ECDSA" || c.Alg == "ED25519" {
+			routes = append(routes, "subtle")
+		}
+		for _, rt := range routes {
+			c.Route = rt
+			v, err := newVerifier(c, pub)
+			if err != nil { // a key the library refuses (coverage only)
+				e := c.ev("construct")
+				e["kind"], e["err"] = "wy:"+name, true
+				w.Emit(e)
+				continue
+			}
+			for _, t := range g.Tests {
+				rec.verify(c, pub, v, "wycheproof", fmt.Sprintf("wy:%s#%d", name, t.TcID), vt.Unhex(t.Sig), vt.Unhex(t.Msg))
+			}
+		}
+	}
+	ec := [][2]string{{"secp256r1", "sha256"}}
+	rsaBits := []int{2048}
+	pss := []string{"rsa_pss_2048_sha256_mgf1_0_test.json", "rsa_pss_2048_sha256_mgf1_32_test.json"}
+	if full {
+		ec = [][2]string{{"secp256r1", "sha256"}, {"secp384r1", "sha384"}, {"secp384r1", "sha512"}, {"secp521r1", "sha512"}}
+		rsaBits = []int{2048, 3072, 4096}
+		pss = append(pss, "rsa_pss_2048_sha384_mgf1_48_test.json", "rsa_pss_3072_sha256_mgf1_32_test.json",
+			"rsa_pss_4096_sha256_mgf1_32_test.json", "rsa_pss_4096_sha384_mgf1_48_test.json",
+			"rsa_pss_4096_sha512_mgf1_32_test.json", "rsa_pss_4096_sha512_mgf1_64_test.json", "rsa_pss_misc_test.json")
+	}
+	for _, ch := range ec {
+		for _, sfx := range [][2]string{{"", "DER"}, {"_p1363", "IEEE_P1363"}} {
+			name := fmt.Sprintf("ecdsa_%s_%s%s_test.json", ch[0], ch[1], sfx[0])
+			for _, g := range load(name) {
+				c := cfg{Alg: "ECDSA", Curve: curve[g.PublicKey.Curve], Hash: sha[g.Sha], Enc: sfx[1], Variant: "NO_PREFIX"}
+				feed(name, c, vt.Unhex(g.PublicKey.Uncompressed), g)
+			}
+		}
+	}
+	for _, g := range load("ed25519_test.json") {
+		feed("ed25519_test.json", cfg{Alg: "ED25519", Variant: "NO_PREFIX"}, vt.Unhex(g.PublicKey.Pk), g)
+	}
+	for _, bits := range rsaBits {
+		for _, h := range []string{"sha256", "sha384", "sha512"} {
+			name := fmt.Sprintf("rsa_signature_%d_%s_test.json", bits, h)
+			for _, g := range load(name) {
+				if g.PublicKey.PublicExponent != "010001" {
+					continue
+				}
+				n := new(big.Int).SetBytes(vt.Unhex(g.PublicKey.Modulus)).Bytes()
+				feed(name, cfg{Alg: "RSA_PKCS1", Hash: sha[g.Sha], Variant: "NO_PREFIX"}, n, g)
+			}
+		}
+	}
+	for _, name := range pss {
+		for _, g := range load(name) {
+			if sha[g.Sha] == "" || g.MgfSha != g.Sha || g.Mgf != "MGF1" || g.PublicKey.PublicExponent != "010001" {
+				continue // parameters Tink does not support
+			}
+			n := new(big.Int).SetBytes(vt.Unhex(g.PublicKey.Modulus)).Bytes()
+			feed(name, cfg{Alg: "RSA_PSS", Hash: sha[g.Sha], SaltLen: g.SLen, Variant: "NO_PREFIX"}, n, g)
 		}
 	}
 }
@@ -1327,6 +1483,7 @@ func main() {
 	ansPath := flag.String("ans", "", "reference-signature answers (written by TLC, Plan_Sig)")
 	out := flag.String("out", "", "trace file")
 	rp := flag.String("replay", "", "replay file")
+	wyDir := flag.String("wy", "", "Wycheproof testvectors_v1 directory: its (key, message, signature) triples are fed to Tink as further inputs")
 	flag.Parse()
 	full := vt.Thorough()
 	if *rp != "" {
@@ -1362,7 +1519,7 @@ func main() {
 		if err != nil || json.Unmarshal(b, &keys) != nil {
 			vt.Fatal("read keys: %v", err)
 		}
-		answers := map[int]string{}
+		answers := map[int]answer{}
 		ab, err := os.ReadFile(*ansPath)
 		if err != nil {
 			vt.Fatal("read answers: %v", err)
@@ -1371,19 +1528,22 @@ func main() {
 			if strings.TrimSpace(line) == "" {
 				continue
 			}
-			var a struct {
-				Rid int    `json:"rid"`
-				Sig string `json:"sig"`
-			}
+			var a answer
 			if err := json.Unmarshal([]byte(line), &a); err != nil {
 				vt.Fatal("bad answer line: %v", err)
 			}
-			answers[a.Rid] = a.Sig
+			answers[a.Rid] = a
 		}
 		w := vt.NewWriter(*out)
 		defer w.Close()
-		runAll(keys, answers, w, full)
-		fmt.Printf("events=%d\n", w.Count())
+		if len(keys) > 0 {
+			runAll(keys, answers, w, full)
+		}
+		n1 := w.Count()
+		if *wyDir != "" {
+			runWycheproof(*wyDir, w, full)
+		}
+		fmt.Printf("events=%d (of which wycheproof inputs=%d)\n", w.Count(), w.Count()-n1)
 	default:
 		vt.Fatal("usage: c03 -mode plan|run ... | -replay file -out trace")
 	}
